@@ -101,6 +101,19 @@ func runEngineCase(r *rng, caseID string, g genOpts, o engineOpts) map[string]an
 		if fl.Name == "n" && r.chance(1, 2) {
 			input["n"] = int64(r.intn(50))
 		}
+		if fl.Name == "opt" && r.chance(1, 2) {
+			input["opt"] = "given"
+		}
+		if fl.Name == "lst" && r.chance(2, 3) {
+			l := []any{}
+			for k := r.intn(4); k > 0; k-- {
+				l = append(l, fmt.Sprintf("e%d", k))
+			}
+			input["lst"] = l
+		}
+		if fl.Name == "z" && r.chance(1, 2) {
+			input["z"] = int64(r.intn(3))
+		}
 	}
 	return execEngineCase(caseID, wf, text, beh, input, o)
 }
@@ -188,18 +201,23 @@ func execEngineCase(caseID string, wf *AWf, text string, beh map[string]Behaviou
 
 func cmdEngine(args []string) int {
 	var cancelMode string
-	var hang bool
+	var hang, evalFail bool
 	c, _ := parseCommon("engine", args, func(fs *flag.FlagSet) {
 		fs.StringVar(&cancelMode, "cancel", "none", "none|random: cancel the context at a random instant")
 		fs.BoolVar(&hang, "hang", false, "allow never-finishing steps")
+		fs.BoolVar(&evalFail, "evalfail", false, "generate expressions that may fail to evaluate at run time")
 	})
 	w := openOut(c.out)
 	defer w.close()
 	r := newRng(c.seed)
 	for i := 0; i < c.n; i++ {
 		cr := r.fork()
+		if i < c.skip {
+			continue
+		}
+		w.emit(map[string]any{"kind": "begin", "index": i})
 		g := genOpts{maxSteps: 3 + cr.intn(4), tags: cr.chance(1, 2), failOutputs: true, enabled: cr.chance(1, 2),
-			stopIf: cr.chance(1, 4), waitFor: cr.chance(1, 2)}
+			stopIf: cr.chance(1, 4), waitFor: cr.chance(1, 2), evalFail: evalFail}
 		if c.tier == "thorough" {
 			g.maxSteps = 3 + cr.intn(10)
 		}
